@@ -73,38 +73,40 @@ theorem loadPath_lift {w : World} {P : St → Prop} (hP : ExecStable w P) (st : 
       · exact importSubs_lift hP _ _ s1 h1
       · exact h1
 
-theorem getLoop_lift {w : World} {P : St → Prop} (hP : ExecStable w P) (iface : ClassId) (r : Ref) (todo : List PathE)
-    (st : St) (h : P st) : P (getLoop w iface r st todo).1 := by
-  induction todo generalizing st with
-  | nil => exact h
-  | cons p rest ih =>
+theorem getLoop_lift {w : World} {P : St → Prop} (hP : ExecStable w P) (iface : ClassId) (r : Ref) (n : Nat)
+    (st : St) (searched : List Mod) (h : P st) : P (getLoop w iface r n st searched).1 := by
+  induction n generalizing st searched with
+  | zero => exact h
+  | succ n ih =>
     simp only [getLoop]
     split
     · exact h
-    · have h1 := loadPath_lift hP st p h
-      cases hl : loadPath w st p with
-      | mk s1 e1 =>
-        rw [hl] at h1
-        cases e1 with
-        | some e => exact h1
-        | none => exact ih s1 h1
+    · cases hn : nextPath (getBank iface st.banks) r searched with
+      | none => exact h
+      | some p =>
+        simp only
+        have h1 := loadPath_lift hP st p h
+        cases hl : loadPath w st p with
+        | mk s1 e1 =>
+          rw [hl] at h1
+          cases e1 with
+          | some e => exact h1
+          | none => exact ih s1 _ h1
 
-theorem get_lift {w : World} {P : St → Prop} (hP : ExecStable w P) (st : St) (iface : ClassId) (r : Ref) (o : List Mod)
-    (h : P st) : P (get w st iface r o).1 := by
+/-- the state a lookup leaves behind is the state its search loop leaves behind -/
+theorem get_state (w : World) (st : St) (iface : ClassId) (r : Ref) :
+    (get w st iface r).1 = (getLoop w iface r (searchFuel w) st []).1 := by
   unfold get
-  cases lookupRef r (getBank iface st.banks).provider with
-  | some c => exact h
-  | none =>
-    simp only
-    have h1 := getLoop_lift hP iface r (todoPaths (getBank iface st.banks) r o) st h
-    cases hl : getLoop w iface r st (todoPaths (getBank iface st.banks) r o) with
-    | mk s1 e1 =>
-      rw [hl] at h1
-      cases e1 with
-      | some e => exact h1
-      | none =>
-        simp only [finish]
-        split <;> exact h1
+  cases getLoop w iface r (searchFuel w) st [] with
+  | mk s1 e1 =>
+    cases e1 with
+    | some e => rfl
+    | none => simp only [finish]; split <;> rfl
+
+theorem get_lift {w : World} {P : St → Prop} (hP : ExecStable w P) (st : St) (iface : ClassId) (r : Ref)
+    (h : P st) : P (get w st iface r).1 := by
+  rw [get_state]
+  exact getLoop_lift hP iface r _ st [] h
 
 theorem runHist_lift {w : World} {P : St → Prop} (hP : ExecStable w P) (ops : List HOp) (st : St) (h : P st) :
     P (runHist w st ops) := by
@@ -119,9 +121,9 @@ theorem runHist_lift {w : World} {P : St → Prop} (hP : ExecStable w P) (ops : 
       | some r =>
         obtain ⟨s1, e1⟩ := r
         exact ih s1 (importMod_lift hP st m h _ hi)
-    | get i r o =>
+    | get i r =>
       simp only [runHist]
-      exact ih _ (get_lift hP st i r o h)
+      exact ih _ (get_lift hP st i r h)
 
 /-! ### what one class statement does to the banks -/
 
@@ -176,10 +178,24 @@ theorem addToBanks_from (c : ClassDef) (is : List ClassId) (st : St) (j : ClassI
         · exact Or.inl h1
       · exact Or.inr ⟨ha, hr, hx, List.mem_cons_of_mem _ hj⟩
 
-/-- every search path after the loop was there before or is one of the class' `path=` -/
+theorem mem_addPaths_right {ps qs : List PathE} {q : PathE} (h : q ∈ qs) : ∃ q' ∈ addPaths ps qs, q'.mod = q.mod := by
+  induction qs generalizing ps with
+  | nil => simp at h
+  | cons q0 qs ih =>
+    simp only [addPaths]
+    rcases List.mem_cons.1 h with h | h
+    · subst h
+      split
+      · rename_i ha
+        obtain ⟨e, he, hm⟩ := List.any_eq_true.1 ha
+        exact ⟨e, mem_addPaths_left he _, by simpa using hm⟩
+      · exact ⟨q, mem_addPaths_left (by simp) _, rfl⟩
+    · exact ih h
+
+/-- every search path after the loop was there before or is one of the class' `path=`, put into a bank the loop went to -/
 theorem addToBanks_paths (c : ClassDef) (is : List ClassId) (st : St) (j : ClassId) (p : PathE)
     (h : p ∈ (getBank j (addToBanks st c is).1.banks).paths) :
-    p ∈ (getBank j st.banks).paths ∨ p ∈ c.paths.map (fun m => (⟨m, true⟩ : PathE)) := by
+    p ∈ (getBank j st.banks).paths ∨ (j ∈ is ∧ p ∈ c.paths.map (fun m => (⟨m, true⟩ : PathE))) := by
   induction is generalizing st with
   | nil => exact Or.inl h
   | cons i rest ih =>
@@ -188,15 +204,39 @@ theorem addToBanks_paths (c : ClassDef) (is : List ClassId) (st : St) (j : Class
     | error e => simp only [hadd] at h; exact Or.inl h
     | ok b =>
       simp only [hadd] at h
-      rcases ih _ h with h1 | h1
+      rcases ih _ h with h1 | ⟨hj, h1⟩
       · simp only [getBank_setBank] at h1
         split at h1
         · rename_i hij
           subst hij
           rw [paths_after_add hadd] at h1
-          exact mem_addPaths h1
+          rcases mem_addPaths h1 with h2 | h2
+          · exact Or.inl h2
+          · exact Or.inr ⟨by simp, h2⟩
         · exact Or.inl h1
-      · exact Or.inr h1
+      · exact Or.inr ⟨List.mem_cons_of_mem _ hj, h1⟩
+
+/-- a loop that ran through has put every `path=` of the class (abstract or not) into every bank it went to -/
+theorem addToBanks_pathsreg (c : ClassDef) (is : List ClassId) (st : St) (h : (addToBanks st c is).2 = none)
+    (i : ClassId) (hi : i ∈ is) (pm : Mod) (hp : pm ∈ c.paths) :
+    ∃ q ∈ (getBank i (addToBanks st c is).1.banks).paths, q.mod = pm := by
+  induction is generalizing st with
+  | nil => simp at hi
+  | cons i0 rest ih =>
+    simp only [addToBanks] at h ⊢
+    cases hadd : (getBank i0 st.banks).add c with
+    | error e => simp [hadd] at h
+    | ok b =>
+      simp only [hadd] at h ⊢
+      rcases List.mem_cons.1 hi with hi | hi
+      · subst hi
+        obtain ⟨q, hq, hqm⟩ := mem_addPaths_right (ps := (getBank i st.banks).paths)
+          (qs := c.paths.map (fun m => (⟨m, true⟩ : PathE))) (q := ⟨pm, true⟩) (List.mem_map.2 ⟨pm, hp, rfl⟩)
+        rw [← paths_after_add hadd] at hq
+        have hb : q ∈ (getBank i { st with banks := setBank i b st.banks }.banks).paths := by
+          simp only [getBank_setBank, if_true]; exact hq
+        exact ⟨q, ((addToBanks_le c rest _).1 i).2 q hb, hqm⟩
+      · exact ih _ h hi
 
 /-- a loop that ran through has bound the (concrete) class under all its references in every bank it went to -/
 theorem addToBanks_registers (c : ClassDef) (hc : c.abstract = false) (is : List ClassId) (st : St)
@@ -237,11 +277,21 @@ theorem initSubclass_from (c : ClassDef) (st : St) (j : ClassId) (r : Ref) (x : 
 
 theorem initSubclass_paths (c : ClassDef) (st : St) (j : ClassId) (p : PathE)
     (h : p ∈ (getBank j (initSubclass st c).1.banks).paths) :
-    p ∈ (getBank j st.banks).paths ∨ p ∈ c.paths.map (fun m => (⟨m, true⟩ : PathE)) := by
+    p ∈ (getBank j st.banks).paths ∨ (j ∈ c.id :: c.parents ∧ p ∈ c.paths.map (fun m => (⟨m, true⟩ : PathE))) := by
   unfold initSubclass at h
   split at h
   · exact Or.inl h
   · exact addToBanks_paths c _ st j p h
+
+theorem initSubclass_pathsreg (c : ClassDef) (st : St) (h : (initSubclass st c).2 = none)
+    (i : ClassId) (hi : i ∈ c.id :: c.parents) (pm : Mod) (hp : pm ∈ c.paths) :
+    ∃ q ∈ (getBank i (initSubclass st c).1.banks).paths, q.mod = pm := by
+  unfold initSubclass at h ⊢
+  split at h
+  · simp at h
+  · rename_i hna
+    simp only [hna]
+    exact addToBanks_pathsreg c _ st h i hi pm hp
 
 theorem initSubclass_registers (c : ClassDef) (hc : c.abstract = false) (st : St) (h : (initSubclass st c).2 = none)
     (i : ClassId) (hi : i ∈ c.id :: c.parents) (r : Ref) (hr : r ∈ refs c) :
@@ -294,7 +344,8 @@ theorem execClasses_from (cs : List ClassDef) (st : St) (j : ClassId) (r : Ref) 
 
 theorem execClasses_paths (cs : List ClassDef) (st : St) (j : ClassId) (p : PathE)
     (h : p ∈ (getBank j (execClasses st cs).1.banks).paths) :
-    p ∈ (getBank j st.banks).paths ∨ ∃ c ∈ cs, p ∈ c.paths.map (fun m => (⟨m, true⟩ : PathE)) := by
+    p ∈ (getBank j st.banks).paths ∨
+      ∃ c ∈ cs, j ∈ c.id :: c.parents ∧ p ∈ c.paths.map (fun m => (⟨m, true⟩ : PathE)) := by
   induction cs generalizing st with
   | nil => exact Or.inl h
   | cons c rest ih =>
@@ -315,6 +366,29 @@ theorem execClasses_paths (cs : List ClassDef) (st : St) (j : ClassId) (p : Path
           · exact Or.inl h3
           · exact Or.inr ⟨c, by simp, h3⟩
         · exact Or.inr ⟨d, List.mem_cons_of_mem _ hd, hp⟩
+
+theorem execClasses_pathsreg (cs : List ClassDef) (st : St) (h : (execClasses st cs).2 = none) (c : ClassDef)
+    (hc : c ∈ cs) (i : ClassId) (hi : i ∈ c.id :: c.parents) (pm : Mod) (hp : pm ∈ c.paths) :
+    ∃ q ∈ (getBank i (execClasses st cs).1.banks).paths, q.mod = pm := by
+  induction cs generalizing st with
+  | nil => simp at hc
+  | cons c0 rest ih =>
+    simp only [execClasses] at h ⊢
+    have h1 : (initSubclass st c0).2 = none → ∀ i ∈ c0.id :: c0.parents, ∀ pm ∈ c0.paths,
+        ∃ q ∈ (getBank i (initSubclass st c0).1.banks).paths, q.mod = pm :=
+      fun h0 i hi pm hp => initSubclass_pathsreg c0 st h0 i hi pm hp
+    cases hini : initSubclass st c0 with
+    | mk s1 e1 =>
+      rw [hini] at h h1
+      cases e1 with
+      | some e => simp at h
+      | none =>
+        simp only at h ⊢
+        rcases List.mem_cons.1 hc with hc | hc
+        · subst hc
+          obtain ⟨q, hq, hqm⟩ := h1 rfl i hi pm hp
+          exact ⟨q, ((execClasses_le rest s1).1 i).2 q hq, hqm⟩
+        · exact ih s1 h hc
 
 theorem execClasses_registers (cs : List ClassDef) (st : St) (h : (execClasses st cs).2 = none) (c : ClassDef)
     (hc : c ∈ cs) (ha : c.abstract = false) (i : ClassId) (hi : i ∈ c.id :: c.parents) (r : Ref) (hr : r ∈ refs c) :
@@ -354,22 +428,38 @@ def pathsOk (w : World) : Bool := (allClasses w).all (fun c => c.paths.all (fun 
 /-- every sub-module of the world has its package in the world (decidable) -/
 def pkgsExist (w : World) : Bool := w.all (fun e => e.1.sub.isNone || (findMod ⟨e.1.pkg, none⟩ w).isSome)
 
-/-- what a process state reached in a defect-free world satisfies: bindings are justified (`StSound`), the classes of
-every imported module are registered, every binding comes from an imported module, every registered explicit search
-path exists -/
+/-- what a process state reached in a defect-free world satisfies: bindings are justified (`StSound`); the classes of
+every imported module are registered (`reg`) and so are their search paths (`preg`); every binding (`src`) and every
+search path (`psrc`) comes from an imported module; imported modules exist (`ex`) -/
 structure Inv (w : World) (st : St) : Prop where
   sound : StSound (InWorld w) st
   reg : ∀ m ∈ st.loaded, ModReg w st m
   src : ∀ i r x, lookupRef r (getBank i st.banks).provider = some x →
     ∃ m ∈ st.loaded, ∃ d, findMod m w = some d ∧ ∃ c ∈ d.classes, Carr c i r x
-  paths : ∀ i, ∀ p ∈ (getBank i st.banks).paths, p.explicit = true → importable w p.mod = true
+  ex : ∀ m ∈ st.loaded, (findMod m w).isSome = true
+  psrc : ∀ i, ∀ q ∈ (getBank i st.banks).paths, ∃ m ∈ st.loaded, ∃ d, findMod m w = some d ∧
+    ∃ c ∈ d.classes, i ∈ c.id :: c.parents ∧ q ∈ c.paths.map (fun m => (⟨m, true⟩ : PathE))
+  preg : ∀ m ∈ st.loaded, ∀ d, findMod m w = some d → ∀ c ∈ d.classes, ∀ i ∈ c.id :: c.parents, ∀ pm ∈ c.paths,
+    ∃ q ∈ (getBank i st.banks).paths, q.mod = pm
 
 theorem inv_empty (w : World) : Inv w St.empty :=
   ⟨stSound_empty _, by intro m hm; simp [St.empty] at hm,
    by intro i r x h; simp [St.empty, getBank, Bank.empty, lookupRef] at h,
-   by intro i p hp; simp [St.empty, getBank, Bank.empty] at hp⟩
+   by intro m hm; simp [St.empty] at hm,
+   by intro i q hq; simp [St.empty, getBank, Bank.empty] at hq,
+   by intro m hm; simp [St.empty] at hm⟩
 
-theorem inv_execStable {w : World} (hw : worldClean w = true) (hpo : pathsOk w = true) : ExecStable w (Inv w) := by
+/-- every registered search path is a declared one: it exists (`pathsOk`) -/
+theorem inv_paths_ok {w : World} (hpo : pathsOk w = true) {st : St} (hI : Inv w st) (i : ClassId) (p : PathE)
+    (hp : p ∈ (getBank i st.banks).paths) : importable w p.mod = true := by
+  obtain ⟨m, _, d, hd, c, hc, _, hpc⟩ := hI.psrc i p hp
+  simp only [List.mem_map] at hpc
+  obtain ⟨pm, hpm, hpe⟩ := hpc
+  subst hpe
+  simp only [pathsOk, List.all_eq_true] at hpo
+  exact hpo c ((inWorld_iff w c).1 ⟨m, d, findMod_mem hd, hc⟩) pm hpm
+
+theorem inv_execStable {w : World} (hw : worldClean w = true) : ExecStable w (Inv w) := by
   intro st m r hI hr
   have hclean := execMod_clean hw st m hI.sound r hr
   have hsound := execMod_sound w st m hI.sound r hr
@@ -386,16 +476,17 @@ theorem inv_execStable {w : World} (hw : worldClean w = true) (hpo : pathsOk w =
       have hfrom := execClasses_from d.classes st
       have hpaths := execClasses_paths d.classes st
       have hreg := execClasses_registers d.classes st
+      have hpreg := execClasses_pathsreg d.classes st
       cases he : execClasses st d.classes with
       | mk s1 e1 =>
-        rw [he] at hle hld hfrom hpaths hreg
+        rw [he] at hle hld hfrom hpaths hreg hpreg
         cases e1 with
         | some e => simp [he] at hr; subst hr; simp at hclean
         | none =>
           simp [he] at hr
           subst hr
-          simp only at hld hfrom hpaths hreg hsound ⊢
-          refine ⟨hsound, ?_, ?_, ?_⟩
+          simp only at hld hfrom hpaths hreg hpreg hsound ⊢
+          refine ⟨hsound, ?_, ?_, ?_, ?_, ?_⟩
           · intro m' hm'
             rcases List.mem_cons.1 hm' with hm' | hm'
             · subst hm'
@@ -411,19 +502,29 @@ theorem inv_execStable {w : World} (hw : worldClean w = true) (hpo : pathsOk w =
             · obtain ⟨m0, hm0, rest⟩ := hI.src i r x h0
               exact ⟨m0, List.mem_cons_of_mem _ (by rw [hld]; exact hm0), rest⟩
             · exact ⟨m, by simp, d, hf, c, hc, hcar⟩
-          · intro i p hp he
-            rcases hpaths i p hp with h0 | ⟨c, hc, hpc⟩
-            · exact hI.paths i p h0 he
-            · simp only [List.mem_map] at hpc
-              obtain ⟨pm, hpm, hpe⟩ := hpc
-              subst hpe
-              simp only [pathsOk, List.all_eq_true] at hpo
-              exact hpo c ((inWorld_iff w c).1 ⟨m, d, findMod_mem hf, hc⟩) pm hpm
+          · intro m' hm'
+            rcases List.mem_cons.1 hm' with hm' | hm'
+            · subst hm'; simp [hf]
+            · rw [hld] at hm'; exact hI.ex m' hm'
+          · intro i q hq
+            rcases hpaths i q hq with h0 | ⟨c, hc, hi, hpc⟩
+            · obtain ⟨m0, hm0, rest⟩ := hI.psrc i q h0
+              exact ⟨m0, List.mem_cons_of_mem _ (by rw [hld]; exact hm0), rest⟩
+            · exact ⟨m, by simp, d, hf, c, hc, hi, hpc⟩
+          · intro m' hm' d' hd' c hc i hi pm hpm
+            rcases List.mem_cons.1 hm' with hm' | hm'
+            · subst hm'
+              rw [hf] at hd'
+              cases hd'
+              exact hpreg trivial c hc i hi pm hpm
+            · rw [hld] at hm'
+              obtain ⟨q, hq, hqm⟩ := hI.preg m' hm' d' hd' c hc i hi pm hpm
+              exact ⟨q, (hle.1 i).2 q hq, hqm⟩
 
 /-- every history — imports (failing ones too) and lookups of any interface — keeps the invariant -/
-theorem inv_runHist {w : World} (hw : worldClean w = true) (hpo : pathsOk w = true) (ops : List HOp) (st : St)
+theorem inv_runHist {w : World} (hw : worldClean w = true) (ops : List HOp) (st : St)
     (h : Inv w st) : Inv w (runHist w st ops) :=
-  runHist_lift (inv_execStable hw hpo) ops st h
+  runHist_lift (inv_execStable hw) ops st h
 
 /-! ### which modules a search path makes the process import -/
 
@@ -705,131 +806,181 @@ theorem importable_of_found {w : World} (hpk : pkgsExist w = true) {m : Mod} {d 
   simp only [importable, hf, Option.isSome_some, Bool.true_and]
   exact this
 
-/-- the loop either ends with the reference bound or has imported everything its search list covers -/
-theorem getLoop_marks (w : World) (iface : ClassId) (r : Ref) (todo : List PathE) (st : St)
-    (h : (getLoop w iface r st todo).2 = none) :
-    (lookupRef r (getBank iface (getLoop w iface r st todo).1.banks).provider).isSome = true ∨
-      ∀ p ∈ todo, ∀ m ∈ covers w p.mod, importable w m = true → m ∈ (getLoop w iface r st todo).1.loaded := by
-  induction todo generalizing st with
-  | nil => exact Or.inr (by simp)
-  | cons p rest ih =>
-    simp only [getLoop] at h ⊢
+/-! ### the search loop never runs out of iterations -/
+
+theorem nodup_subset_length {α : Type} [DecidableEq α] : ∀ (l u : List α), l.Nodup → (∀ x ∈ l, x ∈ u) → l.length ≤ u.length
+  | [], _, _, _ => Nat.zero_le _
+  | a :: t, u, hn, hs => by
+    have ha : a ∈ u := hs a (by simp)
+    have hn' := List.nodup_cons.1 hn
+    have ih : t.length ≤ (u.erase a).length := nodup_subset_length t (u.erase a) hn'.2 (by
+      intro x hx
+      have hxa : x ≠ a := fun h => hn'.1 (h ▸ hx)
+      exact (List.mem_erase_of_ne hxa).2 (hs x (List.mem_cons_of_mem _ hx)))
+    rw [List.length_erase_of_mem ha] at ih
+    have hpos : 0 < u.length := List.length_pos_of_mem ha
+    simp only [List.length_cons]
+    omega
+
+/-- the module names the search loop can ever take for a reference: the declared search paths and what the reference
+derives from them -/
+def cands (D : List Mod) : Ref → List Mod
+  | .qual c => D ++ [c.mod]
+  | .alias a => D ++ D.filterMap (fun m => match m.sub with
+      | none => some (⟨m.pkg, some a⟩ : Mod)
+      | some _ => none)
+
+theorem cands_length (D : List Mod) (r : Ref) : (cands D r).length ≤ 2 * D.length + 1 := by
+  cases r with
+  | qual c => simp [cands]; omega
+  | alias a =>
+    simp only [cands, List.length_append]
+    have := List.length_filterMap_le (fun m : Mod => match m.sub with
+      | none => some (⟨m.pkg, some a⟩ : Mod)
+      | some _ => none) D
+    omega
+
+theorem mem_cands {b : Bank} {r : Ref} {D : List Mod} (hD : ∀ q ∈ b.paths, q.mod ∈ D) {p : PathE}
+    (hp : p ∈ searchList b r) : p.mod ∈ cands D r := by
+  simp only [searchList, List.mem_reverse, List.mem_append] at hp
+  have hbase : ∀ q, q ∈ sortPaths b.paths → q.mod ∈ D :=
+    fun q hq => hD q ((sortPaths_perm_self _).mem_iff.1 hq)
+  rcases hp with hp | hp
+  · cases r <;> exact List.mem_append_left _ (hbase p hp)
+  · cases r with
+    | qual c =>
+      simp only [refPaths, List.mem_singleton] at hp
+      subst hp
+      simp [cands]
+    | alias a =>
+      simp only [refPaths, List.mem_filterMap] at hp
+      obtain ⟨q, hq, hqp⟩ := hp
+      apply List.mem_append_right
+      simp only [List.mem_filterMap]
+      refine ⟨q.mod, hbase q hq, ?_⟩
+      cases hs : q.mod.sub with
+      | none => simp only [hs] at hqp ⊢; cases hqp; rfl
+      | some x => simp [hs] at hqp
+
+theorem inv_declared {w : World} {st : St} (hI : Inv w st) (i : ClassId) :
+    ∀ q ∈ (getBank i st.banks).paths, q.mod ∈ declaredPaths w := by
+  intro q hq
+  obtain ⟨m, _, d, hd, c, hc, _, hpc⟩ := hI.psrc i q hq
+  simp only [List.mem_map] at hpc
+  obtain ⟨pm, hpm, hpe⟩ := hpc
+  subst hpe
+  simp only [declaredPaths, List.mem_flatMap]
+  exact ⟨(m, d), findMod_mem hd, c, hc, hpm⟩
+
+/-- the search of the state is exhausted: every module covered by an entry of its search list is imported -/
+def Closed (w : World) (iface : ClassId) (r : Ref) (s : St) : Prop :=
+  ∀ q ∈ searchList (getBank iface s.banks) r, ∀ m ∈ covers w q.mod, importable w m = true → m ∈ s.loaded
+
+/-- in a defect-free world no import of the search loop raises -/
+theorem getLoop_noerr {w : World} (hw : worldClean w = true) (hpo : pathsOk w = true) (iface : ClassId) (r : Ref)
+    (n : Nat) (st : St) (searched : List Mod) (hI : Inv w st) : (getLoop w iface r n st searched).2 = none := by
+  induction n generalizing st searched with
+  | zero => rfl
+  | succ n ih =>
+    simp only [getLoop]
+    split
+    · rfl
+    · cases hn : nextPath (getBank iface st.banks) r searched with
+      | none => rfl
+      | some p =>
+        simp only
+        have hp := (nextPath_some hn).1
+        have h1 := loadPath_lift (inv_execStable hw) st p hI
+        have h2 := loadPath_clean hw st p hI.sound
+          (fun he => inv_paths_ok hpo hI iface p (mem_searchList_explicit hp he))
+        cases hl : loadPath w st p with
+        | mk s1 e1 =>
+          rw [hl] at h1 h2
+          simp only at h2
+          subst h2
+          exact ih s1 _ h1
+
+/-- with `searchFuel` iterations the loop always ends by itself: with the reference bound or with the search exhausted
+(every iteration searches a new module name out of `cands`) -/
+theorem getLoop_closed {w : World} (hw : worldClean w = true) (hpo : pathsOk w = true) (iface : ClassId) (r : Ref)
+    (n : Nat) (st : St) (searched : List Mod) (hI : Inv w st) (hnd : searched.Nodup)
+    (hsub : ∀ x ∈ searched, x ∈ cands (declaredPaths w) r)
+    (hdone : ∀ x ∈ searched, ∀ m ∈ covers w x, importable w m = true → m ∈ st.loaded)
+    (hfuel : (cands (declaredPaths w) r).length < n + searched.length) :
+    (lookupRef r (getBank iface (getLoop w iface r n st searched).1.banks).provider).isSome = true ∨
+      Closed w iface r (getLoop w iface r n st searched).1 := by
+  induction n generalizing st searched with
+  | zero =>
+    have := nodup_subset_length searched _ hnd hsub
+    omega
+  | succ n ih =>
+    simp only [getLoop]
     split
     · rename_i hb; exact Or.inl hb
-    · rename_i hb
-      simp only [hb] at h
-      have hm := loadPath_marks w st p
-      cases hl : loadPath w st p with
-      | mk s1 e1 =>
-        rw [hl] at hm h
-        cases e1 with
-        | some e => simp at h
-        | none =>
-          simp only at h ⊢
-          rcases ih s1 h with h1 | h1
-          · exact Or.inl h1
-          · right
-            intro q hq m hmq hi
-            rcases List.mem_cons.1 hq with hq | hq
-            · subst hq
-              exact (getLoop_le w iface r rest s1).2 _ (hm rfl m hmq hi)
-            · exact h1 q hq m hmq hi
+    · cases hn : nextPath (getBank iface st.banks) r searched with
+      | none =>
+        right
+        intro q hq m hm hi
+        exact hdone q.mod (nextPath_none hn q hq) m hm hi
+      | some p =>
+        simp only
+        obtain ⟨hp, hps⟩ := nextPath_some hn
+        have h1 := loadPath_lift (inv_execStable hw) st p hI
+        have h2 := loadPath_clean hw st p hI.sound
+          (fun he => inv_paths_ok hpo hI iface p (mem_searchList_explicit hp he))
+        have hm := loadPath_marks w st p
+        have hle := loadPath_le w st p
+        cases hl : loadPath w st p with
+        | mk s1 e1 =>
+          rw [hl] at h1 h2 hm hle
+          simp only at h2
+          subst h2
+          apply ih s1 (p.mod :: searched) h1 (List.nodup_cons.2 ⟨hps, hnd⟩)
+          · intro x hx
+            rcases List.mem_cons.1 hx with hx | hx
+            · subst hx; exact mem_cands (inv_declared hI iface) hp
+            · exact hsub x hx
+          · intro x hx m hmx hi
+            rcases List.mem_cons.1 hx with hx | hx
+            · subst hx; exact hm rfl m hmx hi
+            · exact hle.2 m (hdone x hx m hmx hi)
+          · simp only [List.length_cons]; omega
 
-theorem getLoop_new (w : World) (iface : ClassId) (r : Ref) (todo : List PathE) (st : St) (x : Mod)
-    (hx : x ∈ (getLoop w iface r st todo).1.loaded) : x ∈ st.loaded ∨ ∃ p ∈ todo, x ∈ covers w p.mod := by
-  induction todo generalizing st with
-  | nil => exact Or.inl hx
-  | cons p rest ih =>
-    simp only [getLoop] at hx
-    split at hx
-    · exact Or.inl hx
-    · have hn := loadPath_new w st p x
-      cases hl : loadPath w st p with
-      | mk s1 e1 =>
-        rw [hl] at hn hx
-        cases e1 with
-        | some e =>
-          rcases hn hx with h | h
-          · exact Or.inl h
-          · exact Or.inr ⟨p, by simp, h⟩
-        | none =>
-          simp only at hx
-          rcases ih s1 hx with h | ⟨q, hq, h⟩
-          · rcases hn h with h | h
-            · exact Or.inl h
-            · exact Or.inr ⟨p, by simp, h⟩
-          · exact Or.inr ⟨q, List.mem_cons_of_mem _ hq, h⟩
-
-theorem todo_explicit_ok {w : World} {st : St} (hI : Inv w st) (iface : ClassId) (r : Ref) (o : List Mod) :
-    ∀ p ∈ todoPaths (getBank iface st.banks) r o, p.explicit = true → importable w p.mod = true :=
-  fun p hm he => hI.paths iface p (mem_todoPaths hm he) he
-
-/-- a single lookup of an unbound reference in a defect-free world: it returns a class exactly when its search list
-covers a module defining the reference below the interface, and raises the missing-provider error otherwise -/
-theorem get_unbound {w : World} (hw : worldClean w = true) (hpo : pathsOk w = true) (hpk : pkgsExist w = true)
-    {st : St} (hI : Inv w st) (iface : ClassId) (r : Ref) (o : List Mod)
-    (hn : lookupRef r (getBank iface st.banks).provider = none) :
-    (found w iface r (todoPaths (getBank iface st.banks) r o) = true → ∃ c, (get w st iface r o).2 = .ok c) ∧
-    (found w iface r (todoPaths (getBank iface st.banks) r o) = false → (get w st iface r o).2 = .error .missing) := by
-  have hclean := getLoop_clean hw iface r _ st hI.sound (todo_explicit_ok hI iface r o)
-  have hInv := getLoop_lift (inv_execStable hw hpo) iface r (todoPaths (getBank iface st.banks) r o) st hI
-  have hmarks := getLoop_marks w iface r (todoPaths (getBank iface st.banks) r o) st hclean
-  have hnew := getLoop_new w iface r (todoPaths (getBank iface st.banks) r o) st
+/-- how a lookup ends in a defect-free world: with the class bound, or with the missing-provider error in a state whose
+search is exhausted -/
+theorem get_end {w : World} (hw : worldClean w = true) (hpo : pathsOk w = true) {st : St} (hI : Inv w st)
+    (iface : ClassId) (r : Ref) :
+    Inv w (get w st iface r).1 ∧
+      ((∃ c, (get w st iface r).2 = .ok c ∧ lookupRef r (getBank iface (get w st iface r).1.banks).provider = some c) ∨
+       ((get w st iface r).2 = .error .missing ∧
+          lookupRef r (getBank iface (get w st iface r).1.banks).provider = none ∧
+          Closed w iface r (get w st iface r).1)) := by
+  have hInv := getLoop_lift (inv_execStable hw) iface r (searchFuel w) st [] hI
+  have hne := getLoop_noerr hw hpo iface r (searchFuel w) st [] hI
+  have hcl := getLoop_closed hw hpo iface r (searchFuel w) st [] hI List.nodup_nil (by simp) (by simp)
+    (by have := cands_length (declaredPaths w) r; simp only [searchFuel, List.length_nil]; omega)
   unfold get
-  simp only [hn]
-  cases hl : getLoop w iface r st (todoPaths (getBank iface st.banks) r o) with
+  cases hl : getLoop w iface r (searchFuel w) st [] with
   | mk s1 e1 =>
-    rw [hl] at hclean hInv hmarks hnew
-    simp only at hclean hmarks hnew hInv
-    subst hclean
+    rw [hl] at hInv hne hcl
+    simp only at hne hInv hcl
+    subst hne
     simp only [finish]
-    constructor
-    · intro hf
-      simp only [found, List.any_eq_true] at hf
-      obtain ⟨p, hp, m, hm, hcar⟩ := hf
-      obtain ⟨d, hd, c, hc, x, hcarr⟩ := carriesIn_iff.1 hcar
-      have hb : lookupRef r (getBank iface s1.banks).provider = some c.id := by
-        rcases hmarks with h1 | h1
-        · cases hb : lookupRef r (getBank iface s1.banks).provider with
-          | none => simp [hb] at h1
-          | some y =>
-            -- bound already: to the same identity, because the world has no colliding references
-            obtain ⟨c', hc', ha', hr', hi'⟩ := getBank_sound hInv.sound iface r y (lookupRef_mem hb)
-            rw [← hi']
-            exact congrArg some (worldClean_noCollision hw ⟨m, d, findMod_mem hd, hc⟩ hc' ha' hcarr.2.1 hr')
-        · have hml := h1 p hp m hm (importable_of_found hpk hd)
-          exact hInv.reg m hml d hd c hc hcarr.1 iface hcarr.2.2.2 r hcarr.2.1
-      exact ⟨c.id, by simp [hb]⟩
-    · intro hf
-      cases hb : lookupRef r (getBank iface s1.banks).provider with
-      | none => rfl
-      | some y =>
-        exfalso
-        obtain ⟨m, hml, d, hd, c, hc, hcarr⟩ := hInv.src iface r y hb
-        rcases hnew m hml with h0 | ⟨p, hp, hcov⟩
-        · have := hI.reg m h0 d hd c hc hcarr.1 iface hcarr.2.2.2 r hcarr.2.1
-          rw [hn] at this
-          cases this
-        · have : found w iface r (todoPaths (getBank iface st.banks) r o) = true := by
-            simp only [found, List.any_eq_true]
-            exact ⟨p, hp, m, hcov, carriesIn_iff.2 ⟨d, hd, c, hc, y, hcarr⟩⟩
-          rw [hf] at this
-          cases this
+    cases hb : lookupRef r (getBank iface s1.banks).provider with
+    | some c => exact ⟨hInv, Or.inl ⟨c, rfl, hb⟩⟩
+    | none =>
+      refine ⟨hInv, Or.inr ⟨rfl, hb, ?_⟩⟩
+      rcases hcl with h | h
+      · simp [hb] at h
+      · exact h
 
-/-! ### growing search lists -/
+/-! ### a search that is exhausted stays ahead of every other search -/
 
-theorem mem_arrange_of_valid {paths : List PathE} {order : List Mod} (h : validOrder paths order = true) {p : PathE}
-    (hp : p ∈ paths) : p ∈ arrange paths order :=
-  (validOrder_perm h).mem_iff.2 hp
-
-/-- more registered paths (under a genuine iteration order) give a search list with at least the same entries -/
-theorem todoPaths_mono {b b' : Bank} (hle : ∀ p ∈ b.paths, p ∈ b'.paths) (r : Ref) (o o' : List Mod)
-    (ho' : validOrder b'.paths o' = true) {p : PathE} (hp : p ∈ todoPaths b r o) : p ∈ todoPaths b' r o' := by
-  have hbase : ∀ q, q ∈ sortPaths (arrange b.paths o) → q ∈ sortPaths (arrange b'.paths o') := by
-    intro q hq
-    have h1 := mem_arrange ((sortPaths_perm_self _).mem_iff.1 hq)
-    exact (sortPaths_perm_self _).mem_iff.2 (mem_arrange_of_valid ho' (hle q h1))
-  simp only [todoPaths, List.mem_reverse, List.mem_append] at hp ⊢
+theorem searchList_mono {b b' : Bank} (hle : ∀ p ∈ b.paths, p ∈ b'.paths) (r : Ref) {p : PathE}
+    (hp : p ∈ searchList b r) : p ∈ searchList b' r := by
+  have hbase : ∀ q, q ∈ sortPaths b.paths → q ∈ sortPaths b'.paths :=
+    fun q hq => (sortPaths_perm_self _).mem_iff.2 (hle q ((sortPaths_perm_self _).mem_iff.1 hq))
+  simp only [searchList, List.mem_reverse, List.mem_append] at hp ⊢
   rcases hp with hp | hp
   · exact Or.inl (hbase p hp)
   · right
@@ -840,69 +991,154 @@ theorem todoPaths_mono {b b' : Bank} (hle : ∀ p ∈ b.paths, p ∈ b'.paths) (
       obtain ⟨q, hq, hqp⟩ := hp
       exact ⟨q, hbase q hq, hqp⟩
 
-theorem found_mono {w : World} {iface : ClassId} {r : Ref} {l l' : List PathE} (h : ∀ p ∈ l, p ∈ l')
-    (hf : found w iface r l = true) : found w iface r l' = true := by
-  simp only [found, List.any_eq_true] at hf ⊢
-  obtain ⟨p, hp, rest⟩ := hf
-  exact ⟨p, h p hp, rest⟩
+/-- the same, when the registered paths are only known to agree by module name -/
+theorem searchList_mods_mono {b b' : Bank} (hle : ∀ p ∈ b.paths, ∃ q ∈ b'.paths, q.mod = p.mod) (r : Ref) {p : PathE}
+    (hp : p ∈ searchList b r) : ∃ q ∈ searchList b' r, q.mod = p.mod := by
+  have hbase : ∀ x, x ∈ sortPaths b.paths → ∃ y ∈ sortPaths b'.paths, y.mod = x.mod := by
+    intro x hx
+    obtain ⟨y, hy, hxy⟩ := hle x ((sortPaths_perm_self _).mem_iff.1 hx)
+    exact ⟨y, (sortPaths_perm_self _).mem_iff.2 hy, hxy⟩
+  simp only [searchList, List.mem_reverse, List.mem_append] at hp
+  rcases hp with hp | hp
+  · obtain ⟨y, hy, hxy⟩ := hbase p hp
+    exact ⟨y, by simp only [searchList, List.mem_reverse, List.mem_append]; exact Or.inl hy, hxy⟩
+  · cases r with
+    | qual c =>
+      exact ⟨p, by simp only [searchList, List.mem_reverse, List.mem_append]; exact Or.inr (by simpa [refPaths] using hp), rfl⟩
+    | alias a =>
+      simp only [refPaths, List.mem_filterMap] at hp
+      obtain ⟨x, hx, hxp⟩ := hp
+      obtain ⟨y, hy, hxy⟩ := hbase x hx
+      cases hs : x.mod.sub with
+      | some z => simp [hs] at hxp
+      | none =>
+        simp only [hs, Option.some.injEq] at hxp
+        subst hxp
+        refine ⟨⟨⟨y.mod.pkg, some a⟩, false⟩, ?_, by rw [hxy]⟩
+        simp only [searchList, List.mem_reverse, List.mem_append, refPaths, List.mem_filterMap]
+        exact Or.inr ⟨y, hy, by rw [hxy, hs]⟩
+
+/-- the registered search paths of a state with fewer imported modules are, by name, among those of a state with more -/
+theorem inv_paths_mono {w : World} {st s : St} (hI : Inv w st) (hIs : Inv w s) (hsub : ∀ m ∈ st.loaded, m ∈ s.loaded)
+    (i : ClassId) : ∀ p ∈ (getBank i st.banks).paths, ∃ q ∈ (getBank i s.banks).paths, q.mod = p.mod := by
+  intro p hp
+  obtain ⟨m, hm, d, hd, c, hc, hi, hpc⟩ := hI.psrc i p hp
+  simp only [List.mem_map] at hpc
+  obtain ⟨pm, hpm, hpe⟩ := hpc
+  subst hpe
+  exact hIs.preg m (hsub m hm) d hd c hc i hi pm hpm
+
+/-- simulation: a search that starts from a state with fewer imported modules than an exhausted state `s` never
+imports a module that `s` has not imported -/
+theorem getLoop_below {w : World} (hw : worldClean w = true) (hpk : pkgsExist w = true) (iface : ClassId) (r : Ref)
+    {s : St} (hIs : Inv w s) (hcl : Closed w iface r s) (n : Nat) (st : St) (searched : List Mod) (hI : Inv w st)
+    (hsub : ∀ m ∈ st.loaded, m ∈ s.loaded) : ∀ m ∈ (getLoop w iface r n st searched).1.loaded, m ∈ s.loaded := by
+  induction n generalizing st searched with
+  | zero => exact hsub
+  | succ n ih =>
+    simp only [getLoop]
+    split
+    · exact hsub
+    · cases hn : nextPath (getBank iface st.banks) r searched with
+      | none => exact hsub
+      | some p =>
+        simp only
+        have hp := (nextPath_some hn).1
+        have h1 := loadPath_lift (inv_execStable hw) st p hI
+        have hnew := loadPath_new w st p
+        obtain ⟨q, hq, hqp⟩ := searchList_mods_mono (inv_paths_mono hI hIs hsub iface) r hp
+        have hsub1 : ∀ m ∈ (loadPath w st p).1.loaded, m ∈ s.loaded := by
+          intro m hm
+          rcases hnew m hm with h0 | h0
+          · exact hsub m h0
+          · have hex := h1.ex m hm
+            cases hf : findMod m w with
+            | none => rw [hf] at hex; cases hex
+            | some d => exact hcl q hq m (by rw [hqp]; exact h0) (importable_of_found hpk hf)
+        cases hl : loadPath w st p with
+        | mk s1 e1 =>
+          rw [hl] at h1 hsub1
+          cases e1 with
+          | some e => exact hsub1
+          | none => exact ih s1 _ h1 hsub1
+
+/-! ### what the answers of lookups have to do with each other -/
 
 /-- in a world without colliding references two lookups that return a class return the same class -/
 theorem get_unique {w : World} (hw : worldClean w = true) {st st' : St} (hs : StSound (InWorld w) st)
-    (hs' : StSound (InWorld w) st') (iface iface' : ClassId) (r : Ref) (o o' : List Mod) (c c' : ClassId)
-    (h : (get w st iface r o).2 = .ok c) (h' : (get w st' iface' r o').2 = .ok c') : c = c' := by
-  obtain ⟨d, hd, _, hr, hi⟩ := (get_sound w st iface r o hs).2 c h
-  obtain ⟨d', hd', ha', hr', hi'⟩ := (get_sound w st' iface' r o' hs').2 c' h'
+    (hs' : StSound (InWorld w) st') (iface iface' : ClassId) (r : Ref) (c c' : ClassId)
+    (h : (get w st iface r).2 = .ok c) (h' : (get w st' iface' r).2 = .ok c') : c = c' := by
+  obtain ⟨d, hd, _, hr, hi⟩ := (get_sound w st iface r hs).2 c h
+  obtain ⟨d', hd', ha', hr', hi'⟩ := (get_sound w st' iface' r hs').2 c' h'
   rw [← hi, ← hi']
   exact (worldClean_noCollision hw hd hd' ha' hr hr').symm
 
-/-- liveness under extension: an answer that a lookup gives in one state, it gives in every later state -/
+/-- a reference bound in a state whose imported modules are all imported in an invariant state is bound there too -/
+theorem bound_of_loaded_sub {w : World} {t s : St} (hIt : Inv w t) (hIs : Inv w s) (hsub : ∀ m ∈ t.loaded, m ∈ s.loaded)
+    (iface : ClassId) (r : Ref) (c : ClassId) (h : lookupRef r (getBank iface t.banks).provider = some c) :
+    lookupRef r (getBank iface s.banks).provider = some c := by
+  obtain ⟨m, hm, d, hd, cd, hcd, hcarr⟩ := hIt.src iface r c h
+  have := hIs.reg m (hsub m hm) d hd cd hcd hcarr.1 iface hcarr.2.2.2 r hcarr.2.1
+  rw [hcarr.2.2.1] at this
+  exact this
+
+/-- liveness under extension: an answer that a lookup gives in one state, it gives in every state in which at least the
+same modules are imported -/
 theorem get_hit_mono {w : World} (hw : worldClean w = true) (hpo : pathsOk w = true) (hpk : pkgsExist w = true)
-    {st st' : St} (hI : Inv w st) (hI' : Inv w st') (hle : StLe st st') (iface : ClassId) (r : Ref) (o o' : List Mod)
-    (ho' : validOrder (getBank iface st'.banks).paths o' = true) (c : ClassId)
-    (h : (get w st iface r o).2 = .ok c) : (get w st' iface r o').2 = .ok c := by
-  cases hb' : lookupRef r (getBank iface st'.banks).provider with
-  | some y =>
-    have h' : (get w st' iface r o').2 = .ok y := get_of_bound w st' iface r o' y hb'
-    rw [h']
-    exact congrArg Res.ok (get_unique hw hI.sound hI'.sound iface iface r o o' c y h h').symm
-  | none =>
-    cases hb : lookupRef r (getBank iface st.banks).provider with
-    | some y =>
-      have := (hle.1 iface).1 r y hb
-      rw [hb'] at this
+    {st st' : St} (hI : Inv w st) (hI' : Inv w st') (hsub : ∀ m ∈ st.loaded, m ∈ st'.loaded) (iface : ClassId) (r : Ref)
+    (c : ClassId) (h : (get w st iface r).2 = .ok c) : (get w st' iface r).2 = .ok c := by
+  obtain ⟨hIe', hend'⟩ := get_end hw hpo hI' iface r
+  rcases hend' with ⟨c', hc', _⟩ | ⟨_, hnb, hcl⟩
+  · rw [hc']
+    exact congrArg Res.ok (get_unique hw hI.sound hI'.sound iface iface r c c' h hc').symm
+  · exfalso
+    have hIe := (get_end hw hpo hI iface r).1
+    have hbt := get_ok_bound w st iface r c h
+    have hsub2 : ∀ m ∈ (get w st iface r).1.loaded, m ∈ (get w st' iface r).1.loaded := by
+      rw [get_state w st iface r]
+      exact getLoop_below hw hpk iface r hIe' hcl _ st [] hI
+        (fun m hm => (get_le w st' iface r).2 m (hsub m hm))
+    have := bound_of_loaded_sub hIe hIe' hsub2 iface r c hbt
+    rw [hnb] at this
+    cases this
+
+/-- a reference that the registered search paths let the lookup find is answered with a class -/
+theorem get_found_hit {w : World} (hw : worldClean w = true) (hpo : pathsOk w = true) (hpk : pkgsExist w = true)
+    {st : St} (hI : Inv w st) (iface : ClassId) (r : Ref)
+    (hf : found w iface r (searchList (getBank iface st.banks) r) = true) : ∃ c, (get w st iface r).2 = .ok c := by
+  obtain ⟨hIe, hend⟩ := get_end hw hpo hI iface r
+  rcases hend with ⟨c, hc, _⟩ | ⟨_, hnb, hcl⟩
+  · exact ⟨c, hc⟩
+  · exfalso
+    simp only [found, List.any_eq_true] at hf
+    obtain ⟨p, hp, m, hm, hcar⟩ := hf
+    obtain ⟨d, hd, c, hc, x, hcarr⟩ := carriesIn_iff.1 hcar
+    have hp' := searchList_mono ((get_le w st iface r).1 iface).2 r hp
+    have hml := hcl p hp' m hm (importable_of_found hpk hd)
+    have := hIe.reg m hml d hd c hc hcarr.1 iface hcarr.2.2.2 r hcarr.2.1
+    rw [hnb] at this
+    cases this
+
+/-- asking again gives the same answer -/
+theorem get_repeat {w : World} (hw : worldClean w = true) (hpo : pathsOk w = true) (hpk : pkgsExist w = true)
+    {st : St} (hI : Inv w st) (iface : ClassId) (r : Ref) :
+    (get w (get w st iface r).1 iface r).2 = (get w st iface r).2 := by
+  obtain ⟨hI1, hend⟩ := get_end hw hpo hI iface r
+  rcases hend with ⟨c, hc, hb⟩ | ⟨hmiss, hnb, hcl⟩
+  · rw [hc, get_of_bound w _ iface r c hb]
+  · rw [hmiss]
+    obtain ⟨hI2, hend2⟩ := get_end hw hpo hI1 iface r
+    rcases hend2 with ⟨c, _, hb2⟩ | ⟨hmiss2, _, _⟩
+    · exfalso
+      have hsub : ∀ m ∈ (get w (get w st iface r).1 iface r).1.loaded, m ∈ (get w st iface r).1.loaded := by
+        rw [get_state w (get w st iface r).1 iface r]
+        exact getLoop_below hw hpk iface r hI1 hcl _ _ [] hI1 (fun m hm => hm)
+      have := bound_of_loaded_sub hI2 hI1 hsub iface r c hb2
+      rw [hnb] at this
       cases this
-    | none =>
-      have hu := get_unbound hw hpo hpk hI iface r o hb
-      have hu' := get_unbound hw hpo hpk hI' iface r o' hb'
-      cases hf : found w iface r (todoPaths (getBank iface st.banks) r o) with
-      | false => rw [hu.2 hf] at h; cases h
-      | true =>
-        have hf' : found w iface r (todoPaths (getBank iface st'.banks) r o') = true :=
-          found_mono (fun p hp => todoPaths_mono (hle.1 iface).2 r o o' ho' hp) hf
-        obtain ⟨y, hy⟩ := hu'.1 hf'
-        rw [hy]
-        exact congrArg Res.ok (get_unique hw hI.sound hI'.sound iface iface r o o' c y h hy).symm
+    · exact hmiss2
 
 /-! ### worlds in which every provider can be discovered from the registered search paths -/
-
-/-- the search list of `Bank.get` as a set: the registered paths and the candidates the reference derives from them -/
-def rawTodo (b : Bank) (r : Ref) : List PathE := b.paths ++ refPaths r b.paths
-
-theorem mem_todoPaths_of_raw {b : Bank} {r : Ref} {o : List Mod} (ho : validOrder b.paths o = true) {p : PathE}
-    (hp : p ∈ rawTodo b r) : p ∈ todoPaths b r o := by
-  have hbase : ∀ q, q ∈ b.paths → q ∈ sortPaths (arrange b.paths o) :=
-    fun q hq => (sortPaths_perm_self _).mem_iff.2 (mem_arrange_of_valid ho hq)
-  simp only [rawTodo, List.mem_append] at hp
-  simp only [todoPaths, List.mem_reverse, List.mem_append]
-  rcases hp with hp | hp
-  · exact Or.inl (hbase p hp)
-  · right
-    cases r with
-    | qual c => simpa [refPaths] using hp
-    | alias a =>
-      simp only [refPaths, List.mem_filterMap] at hp ⊢
-      obtain ⟨q, hq, hqp⟩ := hp
-      exact ⟨q, hbase q hq, hqp⟩
 
 /-- every reference of every concrete class below the interface is bound already or can be found from the search
 paths registered for the interface (decidable): the layout of `forml.provider.*` — providers in sub-modules named
@@ -911,20 +1147,18 @@ def discoverable (w : World) (st : St) (iface : ClassId) : Bool :=
   (allClasses w).all fun c =>
     c.abstract || !(c.id :: c.parents).contains iface ||
       (refs c).all fun r =>
-        (lookupRef r (getBank iface st.banks).provider).isSome || found w iface r (rawTodo (getBank iface st.banks) r)
+        (lookupRef r (getBank iface st.banks).provider).isSome || found w iface r (searchList (getBank iface st.banks) r)
 
 /-- history independence in a discoverable, defect-free world: whatever was imported or looked up in between — hits,
 misses, other references, other interfaces, failing imports — `Service[reference]` answers as it would have at once -/
 theorem get_history_free {w : World} (hw : worldClean w = true) (hpo : pathsOk w = true) (hpk : pkgsExist w = true)
-    {st : St} (hI : Inv w st) (iface : ClassId) (hd : discoverable w st iface = true) (ops : List HOp) (r : Ref)
-    (o o' : List Mod) (ho : validOrder (getBank iface st.banks).paths o = true)
-    (ho' : validOrder (getBank iface (runHist w st ops).banks).paths o' = true) :
-    (get w (runHist w st ops) iface r o').2 = (get w st iface r o).2 := by
-  have hI' := inv_runHist hw hpo ops st hI
+    {st : St} (hI : Inv w st) (iface : ClassId) (hd : discoverable w st iface = true) (ops : List HOp) (r : Ref) :
+    (get w (runHist w st ops) iface r).2 = (get w st iface r).2 := by
+  have hI' := inv_runHist hw ops st hI
   have hle := runHist_le w ops st
   by_cases hcar : ∃ c ∈ allClasses w, c.abstract = false ∧ iface ∈ c.id :: c.parents ∧ r ∈ refs c
   · obtain ⟨c, hc, ha, hi, hr⟩ := hcar
-    have hone : ∃ y, (get w st iface r o).2 = .ok y := by
+    have hone : ∃ y, (get w st iface r).2 = .ok y := by
       simp only [discoverable, List.all_eq_true, Bool.or_eq_true, Bool.not_eq_true', List.contains_eq_mem,
         decide_eq_false_iff_not] at hd
       rcases hd c hc with (h1 | h1) | h1
@@ -933,141 +1167,19 @@ theorem get_history_free {w : World} (hw : worldClean w = true) (hpo : pathsOk w
       · rcases h1 r hr with h2 | h2
         · cases hb : lookupRef r (getBank iface st.banks).provider with
           | none => simp [hb] at h2
-          | some y => exact ⟨y, get_of_bound w st iface r o y hb⟩
-        · cases hb : lookupRef r (getBank iface st.banks).provider with
-          | some y => exact ⟨y, get_of_bound w st iface r o y hb⟩
-          | none =>
-            exact (get_unbound hw hpo hpk hI iface r o hb).1
-              (found_mono (fun p hp => mem_todoPaths_of_raw ho hp) h2)
+          | some y => exact ⟨y, by rw [get_of_bound w st iface r y hb]⟩
+        · exact get_found_hit hw hpo hpk hI iface r h2
     obtain ⟨y, hy⟩ := hone
     rw [hy]
-    exact get_hit_mono hw hpo hpk hI hI' hle iface r o o' ho' y hy
-  · have hmiss : ∀ (s : St) (os : List Mod), Inv w s → (get w s iface r os).2 = .error .missing := by
-      intro s os hs
-      have hb : lookupRef r (getBank iface s.banks).provider = none := by
-        cases hb : lookupRef r (getBank iface s.banks).provider with
-        | none => rfl
-        | some y =>
-          exfalso
-          obtain ⟨m, _, d, hd', c, hc, hcarr⟩ := hs.src iface r y hb
-          exact hcar ⟨c, (inWorld_iff w c).1 ⟨m, d, findMod_mem hd', hc⟩, hcarr.1, hcarr.2.2.2, hcarr.2.1⟩
-      apply (get_unbound hw hpo hpk hs iface r os hb).2
-      cases hf : found w iface r (todoPaths (getBank iface s.banks) r os) with
-      | false => rfl
-      | true =>
-        exfalso
-        simp only [found, List.any_eq_true] at hf
-        obtain ⟨p, _, m, _, hcin⟩ := hf
-        obtain ⟨d, hd', c, hc, x, hcarr⟩ := carriesIn_iff.1 hcin
+    exact get_hit_mono hw hpo hpk hI hI' hle.2 iface r y hy
+  · have hmiss : ∀ (s : St), Inv w s → (get w s iface r).2 = .error .missing := by
+      intro s hs
+      obtain ⟨hIe, hend⟩ := get_end hw hpo hs iface r
+      rcases hend with ⟨y, _, hb⟩ | ⟨hm, _, _⟩
+      · exfalso
+        obtain ⟨m, _, d, hd', c, hc, hcarr⟩ := hIe.src iface r y hb
         exact hcar ⟨c, (inWorld_iff w c).1 ⟨m, d, findMod_mem hd', hc⟩, hcarr.1, hcarr.2.2.2, hcarr.2.1⟩
-    rw [hmiss _ o' hI', hmiss _ o hI]
-
-/-! ### asking twice -/
-
-/-- every class statement that declares search paths (`path=`) lives in a module that is imported already (decidable):
-no lookup can register a search path that the bank does not have yet -/
-def pathsSettled (w : World) (st : St) : Bool :=
-  w.all (fun e => st.loaded.contains e.1 || e.2.classes.all (fun c => c.paths.isEmpty))
-
-/-- relative to a settled state `st`: nothing of `st` was unloaded and no bank has a path that it did not have in `st` -/
-def NoNewPaths (st : St) (s : St) : Prop :=
-  (∀ m ∈ st.loaded, m ∈ s.loaded) ∧ ∀ i, ∀ p ∈ (getBank i s.banks).paths, p ∈ (getBank i st.banks).paths
-
-theorem noNewPaths_execStable {w : World} {st : St} (hset : pathsSettled w st = true) : ExecStable w (NoNewPaths st) := by
-  intro s m r hP hr
-  have hle := execMod_le w s m r hr
-  refine ⟨fun x hx => hle.2 x (hP.1 x hx), ?_⟩
-  unfold execMod at hr
-  cases hf : findMod m w with
-  | none => simp [hf] at hr
-  | some d =>
-    simp only [hf] at hr
-    by_cases hl : m ∈ s.loaded
-    · simp [hl] at hr; subst hr; exact hP.2
-    · simp only [List.contains_eq_mem, hl, decide_false] at hr
-      have hpaths := execClasses_paths d.classes s
-      have hempty : ∀ c ∈ d.classes, c.paths = [] := by
-        simp only [pathsSettled, List.all_eq_true, Bool.or_eq_true, List.contains_eq_mem, decide_eq_true_eq,
-          List.isEmpty_iff] at hset
-        rcases hset (m, d) (findMod_mem hf) with h | h
-        · exact absurd (hP.1 m h) hl
-        · exact h
-      have key : ∀ i, ∀ p ∈ (getBank i (execClasses s d.classes).1.banks).paths, p ∈ (getBank i st.banks).paths := by
-        intro i p hp
-        rcases hpaths i p hp with h | ⟨c, hc, hpc⟩
-        · exact hP.2 i p h
-        · rw [hempty c hc] at hpc; simp at hpc
-      cases he : execClasses s d.classes with
-      | mk s1 e1 =>
-        rw [he] at key
-        cases e1 with
-        | some e => simp [he] at hr; subst hr; exact key
-        | none => simp [he] at hr; subst hr; exact key
-
-/-- asking again gives the same answer, provided no class that is still to be discovered declares search paths -/
-theorem get_repeat {w : World} (hw : worldClean w = true) (hpo : pathsOk w = true) (hpk : pkgsExist w = true)
-    {st : St} (hI : Inv w st) (hset : pathsSettled w st = true) (iface : ClassId) (r : Ref) (o o' : List Mod)
-    (ho : validOrder (getBank iface st.banks).paths o = true)
-    (ho' : validOrder (getBank iface (get w st iface r o).1.banks).paths o' = true) :
-    (get w (get w st iface r o).1 iface r o').2 = (get w st iface r o).2 := by
-  have hI' : Inv w (get w st iface r o).1 := get_lift (inv_execStable hw hpo) st iface r o hI
-  have hle := get_le w st iface r o
-  have hnp : NoNewPaths st (get w st iface r o).1 :=
-    get_lift (noNewPaths_execStable hset) st iface r o ⟨fun _ h => h, fun _ _ h => h⟩
-  cases h1 : (get w st iface r o).2 with
-  | ok c => exact get_hit_mono hw hpo hpk hI hI' hle iface r o o' ho' c h1
-  | error e =>
-    -- the first lookup was a miss: the reference is unbound before and after it, and nothing new can be found
-    have hb : lookupRef r (getBank iface st.banks).provider = none := by
-      cases hb : lookupRef r (getBank iface st.banks).provider with
-      | none => rfl
-      | some y => rw [get_of_bound w st iface r o y hb] at h1; cases h1
-    have hu := get_unbound hw hpo hpk hI iface r o hb
-    have hf : found w iface r (todoPaths (getBank iface st.banks) r o) = false := by
-      cases hf : found w iface r (todoPaths (getBank iface st.banks) r o) with
-      | false => rfl
-      | true => obtain ⟨y, hy⟩ := hu.1 hf; rw [hy] at h1; cases h1
-    have he : e = .missing := by
-      have := hu.2 hf
-      rw [h1] at this
-      cases this
-      rfl
-    subst he
-    have hb' : lookupRef r (getBank iface (get w st iface r o).1.banks).provider = none := by
-      cases hb' : lookupRef r (getBank iface (get w st iface r o).1.banks).provider with
-      | none => rfl
-      | some y =>
-        exfalso
-        obtain ⟨m, hml, d, hd, c, hc, hcarr⟩ := hI'.src iface r y hb'
-        -- the module was imported by the first lookup, whose search list would then have found the reference
-        have hnew : m ∈ st.loaded ∨ ∃ p ∈ todoPaths (getBank iface st.banks) r o, m ∈ covers w p.mod := by
-          have := getLoop_new w iface r (todoPaths (getBank iface st.banks) r o) st m
-          unfold get at hml
-          simp only [hb] at hml
-          cases hl : getLoop w iface r st (todoPaths (getBank iface st.banks) r o) with
-          | mk s1 e1 =>
-            rw [hl] at this hml
-            apply this
-            cases e1 with
-            | some e => simpa [finish] using hml
-            | none =>
-              simp only [finish] at hml
-              split at hml <;> exact hml
-        rcases hnew with h0 | ⟨p, hp, hcov⟩
-        · have := hI.reg m h0 d hd c hc hcarr.1 iface hcarr.2.2.2 r hcarr.2.1
-          rw [hb] at this
-          cases this
-        · have : found w iface r (todoPaths (getBank iface st.banks) r o) = true := by
-            simp only [found, List.any_eq_true]
-            exact ⟨p, hp, m, hcov, carriesIn_iff.2 ⟨d, hd, c, hc, y, hcarr⟩⟩
-          rw [hf] at this
-          cases this
-    apply (get_unbound hw hpo hpk hI' iface r o' hb').2
-    cases hf' : found w iface r (todoPaths (getBank iface (get w st iface r o).1.banks) r o') with
-    | false => rfl
-    | true =>
-      have := found_mono (fun p hp => todoPaths_mono (hnp.2 iface) r o' o ho hp) hf'
-      rw [hf] at this
-      cases this
+      · exact hm
+    rw [hmiss _ hI', hmiss _ hI]
 
 end ForML.Bank
